@@ -128,6 +128,21 @@ func (s StrCat) Key() string {
 	return strings.Join(ks, "+")
 }
 
+// ListVal is a slice whose elements are all known (built from an empty slice by appends of known
+// elements): names = append(names, x) ... strings.Join(names, sep).
+type ListVal struct {
+	E []AVal
+	T types.Type
+}
+
+func (l ListVal) Key() string {
+	ks := make([]string, len(l.E))
+	for i, e := range l.E {
+		ks[i] = keyOf(e)
+	}
+	return "list[" + strings.Join(ks, ", ") + "]"
+}
+
 // Tok is a token of a client-defined finite domain (e.g. a measure, a bound, a clause).
 type Tok struct {
 	Dom  string
